@@ -459,6 +459,9 @@ def ms_stmt(s, ind):
     if k == 'assert':
         return '%sassert %s' % (p, ms_expr(s[1], True))
     if k == 'expr':
+        if s[1][0] == 'get':
+            # a statement may not start with `(`: it would continue the previous statement's expression as a call
+            return '%sget %s' % (p, ms_expr(s[1][1], False, 9))
         return '%s%s' % (p, ms_expr(s[1], True))
     if k == 'if':
         return '%sif %s {\n%s\n%s}' % (p, ms_expr(s[1]), ms_block(s[2], ind + 1), p)
